@@ -1,7 +1,7 @@
 SPECIFICATION Spec
 CONSTANTS
  NSamples = 30
- NReuse = 4
+ NReuse = 6
  PairMs = {0, 255, 1}
  DeltaDists = {1, 2, 3, 16, 255, 256}
  DeltaLens = {0, 1, 2, 17, 256, 257, 300}
